@@ -374,10 +374,10 @@ def run(ck):
     # ------------------------------------------------------------------ R6
     fn = jc.func("JitCore.del_block_in_range")
     body = ast.Module(body=fn.body, type_ignores=[])
-    dels_func = [n for n in walk_local(body) if (isinstance(n, ast.Delete) and any(
+    dels_func = [n for n in ast.walk(body) if (isinstance(n, ast.Delete) and any(
         isinstance(t, ast.Subscript) and dotted(t.value) == "self.offset_to_jitted_func" for t in n.targets)) or
         (isinstance(n, ast.Call) and dotted(n.func) == "self.offset_to_jitted_func.pop")]
-    dels_blk = [n for n in walk_local(body) if (isinstance(n, ast.Delete) and any(
+    dels_blk = [n for n in ast.walk(body) if (isinstance(n, ast.Delete) and any(
         isinstance(t, ast.Subscript) and dotted(t.value) == "self.loc_key_to_block" for t in n.targets)) or
         (isinstance(n, ast.Call) and dotted(n.func) == "self.loc_key_to_block.pop")]
     ck.ob("R6", "del_block_in_range:drop-translation", bool(dels_func), jc.where(fn), "translated functions of modified blocks are kept")
@@ -388,12 +388,22 @@ def run(ck):
     conv, _why = _range_convention(jc)
     ok = False
     detail = "no overlap test on ad_min/ad_max found"
+    _resf = Resolver(fn)
+    cands = []          # (test node, selected-when-true?, selecting statements or None for a comprehension)
     for n in walk_local(body):
-        if not (isinstance(n, ast.If) and isinstance(n.test, ast.BoolOp) and len(n.test.values) == 2):
+        if isinstance(n, ast.If) and isinstance(n.test, ast.BoolOp):
+            cands.append((n.test, None, n))
+        if isinstance(n, (ast.GeneratorExp, ast.ListComp, ast.SetComp)) and len(n.generators) == 1 and n.generators[0].ifs and "loc_key_to_block" in norm(n.generators[0].iter):
+            conds = n.generators[0].ifs
+            t = conds[0] if len(conds) == 1 else ast.BoolOp(op=ast.And(), values=list(conds))
+            cands.append((t, True, None))
+    for (test, comp_true, ifnode) in cands:
+        if not isinstance(test, ast.BoolOp):
             continue
-        untouched_when = isinstance(n.test.op, ast.Or)     # `or` of two "disjoint" atoms / `and` of two "overlap" atoms
+        untouched_when = isinstance(test.op, ast.Or)     # `or` of "disjoint" atoms / `and` of "overlap" atoms
         rel = {}
-        for v in n.test.values:
+        for v in test.values:
+            v = _resf.expand_node(v)
             lt = less_than(v, True)
             if lt is None:
                 continue
@@ -403,16 +413,19 @@ def run(ck):
             # ad_max (<|<=) ad1 ; ad2 (<|<=) ad_min
             k1, k2 = ("ad_max", p1), (p2, "ad_min")
             want1, want2 = (conv == "inclusive"), False
-            sel = n.orelse
+            sel = ifnode.orelse if ifnode is not None else None
         else:
             # ad1 (<|<=) ad_max ; ad_min (<|<=) ad2
             k1, k2 = (p1, "ad_max"), ("ad_min", p2)
             want1, want2 = (conv == "exclusive"), True
-            sel = n.body
+            sel = ifnode.body if ifnode is not None else None
         if k1 in rel and k2 in rel:
-            sel_ok = any(isinstance(c, ast.Call) and callee_attr(c) == "add" for c in walk_local(ast.Module(body=sel, type_ignores=[])))
+            if ifnode is None:
+                sel_ok = not untouched_when
+            else:
+                sel_ok = any(isinstance(c, ast.Call) and callee_attr(c) == "add" for c in walk_local(ast.Module(body=sel, type_ignores=[])))
             ok = conv is not None and rel[k1] == want1 and rel[k2] == want2 and sel_ok
-            detail = "ad_max is %s (set_block_min_max) and [%s, %s) is half-open, but the test is `%s`" % (conv, p1, p2, norm(n.test))
+            detail = "ad_max is %s (set_block_min_max) and [%s, %s) is half-open, but the test is `%s`" % (conv, p1, p2, norm(test))
     ck.ob("R6", "del_block_in_range:overlap", ok, jc.where(fn),
           "a block is selected for removal iff it overlaps the written range: %s" % detail)
     rebuilt = any(isinstance(n, ast.Assign) and any(dotted(t) == "self.blocks_mem_interval" for t in n.targets)
@@ -427,8 +440,17 @@ def run(ck):
           "every range must be passed to del_block_in_range and the VM code ranges refreshed")
     fn = jc.func("JitCore.updt_automod_code")
     res = Resolver(fn)
-    ok = any(isinstance(n, ast.For) and norm(n.iter) == "vm.get_memory_write()" for n in walk_body(fn)) and \
-        any(isinstance(c, ast.Call) and dotted(c.func) == "self.updt_automod_code_range" for c in walk_body(fn))
+    ok = False
+    for c in [c for c in walk_body(fn) if isinstance(c, ast.Call) and dotted(c.func) == "self.updt_automod_code_range" and len(c.args) >= 2]:
+        a = c.args[1]
+        ax = res.expand_node(a)
+        if "vm.get_memory_write()" in norm(ax):
+            ok = True
+        elif isinstance(a, ast.Name):
+            for lp in [n for n in walk_body(fn) if isinstance(n, ast.For) and norm(n.iter) == "vm.get_memory_write()"]:
+                if any(isinstance(x, ast.Call) and isinstance(x.func, ast.Attribute) and x.func.attr in ("append", "add") and norm(x.func.value) == a.id for x in walk_local(lp)) \
+                        and not any(isinstance(x, (ast.Break, ast.Continue)) for x in walk_local(lp)):
+                    ok = True
     ck.ob("R6", "updt_automod_code", ok, jc.where(fn), "recorded memory writes are not all handed to updt_automod_code_range")
 
     # ------------------------------------------------------------------ R7
